@@ -16,18 +16,23 @@ import (
 
 // ---------------------------------------------------------------- generation
 
-func (e *Engine) newVC(k string) (*fnVC, error) {
+func (e *Engine) newVC(k string, mode string) (*fnVC, error) {
 	fn := e.fns[k]
 	if fn == nil {
 		return nil, fmt.Errorf("contract for unknown function %s", k)
 	}
 	con := e.spec.Contracts[k]
+	if mode != "" && mode != con.Mode {
+		c2 := *con
+		c2.Mode = mode
+		con = &c2
+	}
 	v := &fnVC{e: e, fn: fn, con: con, P: newPrelude(con.Mode == "bv"), vals: map[ssa.Value]T{}, reach: map[*ssa.BasicBlock]T{}, memOut: map[*ssa.BasicBlock]map[string]T{}, cur: map[string]T{}, memSrt: map[string]string{}, oblCnt: map[string]int{}, tuples: map[ssa.Value][]T{}, usedContracts: map[string]bool{}, grounded: map[string]bool{}, closures: map[ssa.Value]*ssa.MakeClosure{}, rangeOf: map[*ssa.Range]ssa.Value{}}
 	return v, nil
 }
 
-func (e *Engine) gen(k string, verbose bool) (v *fnVC, err error) {
-	v, err = e.newVC(k)
+func (e *Engine) gen(k string, mode string, verbose bool) (v *fnVC, err error) {
+	v, err = e.newVC(k, mode)
 	if err != nil {
 		return nil, err
 	}
@@ -99,13 +104,43 @@ func (e *Engine) generate(keys []string, prop string, kinds string, dir string, 
 	os.MkdirAll(dir, 0o755)
 	for _, k := range keys {
 		con := e.spec.Contracts[k]
-		v, err := e.gen(k, verbose)
+		v, err := e.gen(k, "", verbose)
 		if err != nil {
 			g.toolErrs = append(g.toolErrs, err.Error())
 			continue
 		}
 		g.fns = append(g.fns, con.Key)
 		g.vcs[k] = v
+		// clauses proved in the other integer model: a second generation of the same function in that
+		// mode contributes exactly those post obligations
+		obls := v.obls
+		otherMode := ""
+		for _, en := range con.Ensures {
+			if en.Mode != "" && en.Mode != con.Mode {
+				otherMode = en.Mode
+			}
+		}
+		if otherMode != "" {
+			v2, err := e.gen(k, otherMode, verbose)
+			if err != nil {
+				g.toolErrs = append(g.toolErrs, err.Error())
+				continue
+			}
+			obls = nil
+			for _, o := range v.obls {
+				if o.Clause != nil && o.Clause.Mode == otherMode {
+					continue
+				}
+				o.vc = v
+				obls = append(obls, o)
+			}
+			for _, o := range v2.obls {
+				if o.Clause != nil && o.Clause.Mode == otherMode {
+					o.vc = v2
+					obls = append(obls, o)
+				}
+			}
+		}
 		if len(v.unsupported) > 0 {
 			g.notes[con.Key] = append(g.notes[con.Key], "havoc'd unsupported constructs: "+strings.Join(uniq(v.unsupported), "; "))
 		}
@@ -118,7 +153,11 @@ func (e *Engine) generate(keys []string, prop string, kinds string, dir string, 
 		// every ensures clause relevant to the property must have produced at least one obligation
 		seenPost := map[string]bool{}
 		coverDone := map[string]bool{}
-		for _, o := range v.obls {
+		for _, o := range obls {
+			v := v
+			if o.vc != nil {
+				v = o.vc
+			}
 			if prop != "" && !hasStr(oblProps(o, con), prop) {
 				continue
 			}
@@ -170,6 +209,68 @@ func (e *Engine) generate(keys []string, prop string, kinds string, dir string, 
 		}
 	}
 	return g
+}
+
+// classifyDeadReturn decides why the facts on a return path are unsatisfiable: "dead-branch" when a
+// reachable predecessor's branch condition excludes the path (semantically dead code, e.g. a defensive
+// check that a callee's contract makes impossible), "inside" when the contradiction arises among the
+// facts assumed within a block (a contradictory contract or a generator error: proofs would be vacuous).
+func classifyDeadReturn(j *job, cfg solveCfg) string {
+	v := j.v
+	n := 0
+	satAt := func(b *ssa.BasicBlock, idx int) bool {
+		r := v.reach[b]
+		if r == "" {
+			return false
+		}
+		o := &Obl{Name: "cover", Kind: "cover", Goal: "false", Reach: r, blk: b, idx: idx}
+		n++
+		file := fmt.Sprintf("%s_dead%d.smt2", strings.TrimSuffix(j.file, ".smt2"), n)
+		writeFile(file, qfFragment(v.emit(o, "")))
+		a, _ := race(file, []string{"z3-new", "z3"}, cfg.t1+6, 0, false)
+		return a.status != "unsat"
+	}
+	memo := map[*ssa.BasicBlock]string{}
+	var classify func(b *ssa.BasicBlock) string
+	classify = func(b *ssa.BasicBlock) string {
+		if r, ok := memo[b]; ok {
+			return r
+		}
+		memo[b] = "dead-branch"
+		if satAt(b, v.entrySeq[b]+1) {
+			memo[b] = "inside"
+			return "inside"
+		}
+		for _, p := range b.Preds {
+			if v.isBack[[2]*ssa.BasicBlock{p, b}] || v.reach[p] == "" {
+				continue
+			}
+			if satAt(p, 1<<30) {
+				continue // consistent state at the end of p: only the edge condition excludes b
+			}
+			if classify(p) == "inside" {
+				memo[b] = "inside"
+				return "inside"
+			}
+		}
+		return memo[b]
+	}
+	// post obligations at a merge block are proved per incoming edge: the cover then belongs to one edge
+	b := j.o.blk
+	if j.o.Reach != v.reach[b] {
+		for _, p := range b.Preds {
+			if v.isBack[[2]*ssa.BasicBlock{p, b}] || v.reach[p] == "" {
+				continue
+			}
+			if and(v.reach[b], v.edgeCond(p, b)) == j.o.Reach {
+				if satAt(p, 1<<30) {
+					return "dead-branch"
+				}
+				return classify(p)
+			}
+		}
+	}
+	return classify(b)
 }
 
 // ---------------------------------------------------------------- known findings
@@ -295,7 +396,7 @@ func cmdCheck(args []string) int {
 	confirmed2 := 0
 	var violations []string
 	var known []string
-	var vacuous []string
+	var vacuous, deadPaths []string
 	var slow []string
 	var samples []map[string]interface{}
 	replayDir := filepath.Join(*verif, "replays", prop)
@@ -304,7 +405,11 @@ func cmdCheck(args []string) int {
 			nCover++
 			switch j.status {
 			case "unsat":
-				vacuous = append(vacuous, j.o.Name)
+				if classifyDeadReturn(j, cfg) == "inside" {
+					vacuous = append(vacuous, j.o.Name)
+				} else {
+					deadPaths = append(deadPaths, j.o.Name+" "+relPos(j.o.Pos, *repo))
+				}
 			}
 			continue
 		}
@@ -344,17 +449,17 @@ func cmdCheck(args []string) int {
 		violations = append(violations, line)
 		samples = append(samples, map[string]interface{}{"obligation": j.o.Name, "clause": j.o.Text, "at": relPos(j.o.Pos, *repo), "smt_bytes": j.size, "result": j.status, "backend": j.solver, "replay": rp.Verdict})
 	}
-	if len(vacuous) > 0 {
-		for _, n := range vacuous {
-			fmt.Printf("TOOL-ERROR property=%s VACUOUS: the assumed facts on this return path are contradictory: %s\n", prop, n)
-		}
-		return 2
-	}
 	for _, k := range uniq(known) {
 		fmt.Println(k)
 	}
 	for _, l := range violations {
 		fmt.Println(l)
+	}
+	if len(vacuous) > 0 && len(violations) == 0 {
+		for _, n := range vacuous {
+			fmt.Printf("TOOL-ERROR property=%s VACUOUS: the assumed facts on this return path are contradictory: %s\n", prop, n)
+		}
+		return 2
 	}
 	wall := time.Since(t0).Seconds()
 
@@ -404,6 +509,7 @@ func cmdCheck(args []string) int {
 			"solver_time_s":            round3(solverTime),
 			"load_and_vcgen_s":         round3(tLoad),
 			"known_findings":           uniq(known),
+			"dead_return_paths":        deadPaths,
 			"slow_obligations":         slow,
 			"samples":                  samples,
 			"integer_model":            "mode int: mathematical integers with explicit two's-complement wrap on every + - * and conversion; mode bv: 64-bit vectors and IEEE-754 floats (per function, see contract files)",
@@ -519,6 +625,10 @@ func cmdRun(args []string) int {
 				st = "unsat"
 			case "unsat":
 				st = "VACUOUS"
+				if classifyDeadReturn(j, cfg) != "inside" {
+					st = "unsat"
+					fmt.Printf("dead return path (excluded by a branch condition): %s %s\n", j.o.Name, j.o.Pos)
+				}
 			default:
 				st = "cover-" + st
 			}
